@@ -135,7 +135,8 @@ def contains(got, want):
 
 
 def failures(seed=0, tier="quick", only=None, **_):
-    depth = 4 if tier == "quick" else 6
+    depth = 4 if tier == "quick" else 7
+    rdepth = 4 if tier == "quick" else 6
     results = []
     seen_known = set()
     seed0 = seed
@@ -179,8 +180,8 @@ def failures(seed=0, tier="quick", only=None, **_):
             seen_known.update(hit)
             return probs
         results.append((name, explore(mk, check, depth, seed=seed, extra=10)))
-        results.append((name + "/reply-order", explore(mk, check, 4, seed=seed, extra=5, mode="replies-last")))
-        results.append((name + "/replies", explore(mk, check, 4, width=2, seed=seed, extra=5, mode="replies")))
+        results.append((name + "/reply-order", explore(mk, check, rdepth, seed=seed, extra=5, mode="replies-last")))
+        results.append((name + "/replies", explore(mk, check, rdepth, width=2 if tier == "quick" else 3, seed=seed, extra=5, mode="replies")))
         if name.startswith("nested-") or name == "map-batched-fails-early":
             # deep interleavings: FIFO until the inner fan-out's tasks are outstanding, then every choice sequence from there
             for warm in (7, 9, 11):
